@@ -148,6 +148,24 @@ pub fn scripts(tier: Tier) -> Vec<Script> {
             ],
         });
     }
+    // a commit whose final sync fails (it reports an error, its header is in the file), then further
+    // commits on the same handle, each of them crashed at every point
+    {
+        let acts = vec![
+            tx({
+                let mut v = vec![OpSpec::bucket("create", &[], "b")];
+                for k in crate::drivers::KV_KEYS {
+                    v.push(OpSpec::put(&["b"], k, "w*300"));
+                }
+                v
+            }),
+            tx(vec![OpSpec::put(&["b"], "k0", "y*310")]),
+            Action::TxFail { ops: vec![OpSpec::put(&["b"], "k1", "z*290"), OpSpec::put(&["b"], "k4", "u*300")], call: 1001 },
+            tx(vec![OpSpec::del(&["b"], "k2"), OpSpec::put(&["b"], "k5", "x*1500")]),
+            tx(vec![OpSpec::put(&["b"], "k3", "y*310")]),
+        ];
+        out.push(Script { name: "failed-final-sync-then-commits", cfg: small(1024, 64), actions: acts });
+    }
     // a file whose headers are in the legacy format (even and odd number of commits before): the
     // upgrade commit and the one after it
     for (name, extra) in [("legacy-headers-then-upgrade-2", 0usize), ("legacy-headers-then-upgrade-3", 1)] {
